@@ -40,7 +40,8 @@ DecValue(ds) == FoldLeft(LAMBDA a, c : 10 * a + DVal(c), 0, ds)
 Coarse(c) == c \in Digits \cup {"I", "V", "X"}
 Skel(nm) == LET ps == Pieces(nm, Coarse) IN [k \in 1..Len(ps) |-> IF ps[k].run THEN <<"*">> ELSE ps[k].s]
 \* leading-zero normal form: every maximal decimal run replaced by its value
-ZeroNorm(nm) == LET ps == Pieces(nm, IsDigit) IN [k \in 1..Len(ps) |-> IF ps[k].run THEN <<DecValue(ps[k].s)>> ELSE ps[k].s]
+\* (the value is kept as a string, so that sequences of pieces can be compared with each other without mixing integers and strings)
+ZeroNorm(nm) == LET ps == Pieces(nm, IsDigit) IN [k \in 1..Len(ps) |-> IF ps[k].run THEN <<"#", ToString(DecValue(ps[k].s))>> ELSE ps[k].s]
 NoNumeralLetters(nm) == \A k \in 1..Len(nm) : nm[k] \notin {"I", "V", "X"}
 
 \* a set of names on which the statement fixes the output order up to leading zeros
